@@ -127,6 +127,16 @@ inline Plan gen_plan(uint64_t seed, uint64_t index, Tier tier, int profile, bool
             // every way of obtaining a configured optimizer, including copies of one
             if (r.chance(0.25)) { int64_t dst = 1 + g.rnd(2); int kind = r.chance(0.5) ? OP_COPY : OP_ASSIGN; int64_t xs = g.rnd(1u << 30); g.op(kind, {0, dst, xs}); g.eval(dst, CHK_TWIN | CHK_TRACE); }
             g.eval(0, CHK_TWIN | CHK_TRACE);
+            if (r.chance(0.15))
+            {
+                // the same decision vector on the same caller-owned workspace before and after a re-initialisation that
+                // changes nothing but the start time or nothing but the fixed boundary derivatives
+                int64_t xs = g.rnd(1u << 30), wsel = r.range(1, 4), xm = r.chance(0.5) ? 4 : 1;
+                int only = r.chance(0.5) ? 1 : 4;
+                g.op(OP_EVAL, {0, xs, xm, wsel, 0, 0, 0, 1, CHK_TWIN | CHK_TRACE, 0, 0});
+                g.set_init(0, 1, BAD_NONE, only);
+                g.op(OP_EVAL, {0, xs, xm, wsel, 0, 0, 0, 1, CHK_TWIN | CHK_TRACE, 0, 0});
+            }
         }
         // the sum and the samples of a call made while other threads evaluate on the same optimizer
         if (r.chance(0.2)) g.op(OP_CONCURRENT, {0, g.rnd(3), g.rnd(2), g.rnd(1u << 30), 0, 0});
@@ -201,7 +211,8 @@ inline Plan gen_plan(uint64_t seed, uint64_t index, Tier tier, int profile, bool
             {
                 int64_t hh = g.rnd(2), xs = g.rnd(1u << 30), wsel = r.range(1, 4);
                 g.op(OP_EVAL, {hh, xs, 0, wsel, 0, 0, 0, 1, CHK_TWIN | CHK_TRACE, 0, 0});
-                g.set_init(hh, 1, BAD_NONE, 1);
+                int only = r.chance(0.5) ? 1 : 4; // only the start time / only the fixed boundary derivatives differ
+                g.set_init(hh, 1, BAD_NONE, only);
                 g.op(OP_EVAL, {hh, xs, 0, wsel, 0, 0, 0, 1, CHK_TWIN | CHK_TRACE, 0, 0});
             }
             else if (u < 0.40) g.op(OP_CHECKGRAD, {g.rnd(2), g.rnd(1u << 30), r.range(1, 4), r.chance(0.7) ? 1 : 0, 0, 0, 0, 0, 0, 1 + g.rnd(1u << 20)}, {0.0});
